@@ -143,7 +143,11 @@ impl<S: Syntax, D> Clone for SyntaxNode<S, D> {
         // safety:: the ref count is only dropped when there are no more external references (see below)
         // since we are currently cloning such a reference, there is still at least one
         let ref_count = unsafe { &mut *self.data().ref_count };
+        #[cfg(cstree_verif)]
+        crate::verif::point(crate::verif::Point::Rmw { site: crate::verif::RmwSite::Clone });
         ref_count.fetch_add(1, Ordering::AcqRel);
+        #[cfg(cstree_verif)]
+        crate::verif::note(crate::verif::Note::RmwDone { now: ref_count.load(Ordering::Relaxed) });
         self.clone_uncounted()
     }
 }
@@ -155,7 +159,11 @@ impl<S: Syntax, D> Drop for SyntaxNode<S, D> {
         // if we are the last external reference, we have not yet dropped the ref count
         // if we aren't we won't enter the `if` below
         let ref_count = unsafe { &*self.data().ref_count };
+        #[cfg(cstree_verif)]
+        crate::verif::point(crate::verif::Point::Rmw { site: crate::verif::RmwSite::Drop });
         let refs = ref_count.fetch_sub(1, Ordering::AcqRel);
+        #[cfg(cstree_verif)]
+        crate::verif::note(crate::verif::Note::RmwDone { now: refs.wrapping_sub(1) });
         if refs == 1 {
             // drop from parent
             // NOTE regarding drop orders: since `SyntaxNode<L>::drop` looks at the `ref_count`, we
@@ -167,7 +175,11 @@ impl<S: Syntax, D> Drop for SyntaxNode<S, D> {
             root.drop_recursive();
             let root_data = root.data;
             drop(root);
+            #[cfg(cstree_verif)]
+            crate::verif::note(crate::verif::Note::Free { ptr: root_data.as_ptr() as usize, count_cell: false });
             unsafe { drop(Box::from_raw(root_data.as_ptr())) };
+            #[cfg(cstree_verif)]
+            crate::verif::note(crate::verif::Note::Free { ptr: ref_count as usize, count_cell: true });
             unsafe { drop(Box::from_raw(ref_count)) };
         }
     }
@@ -176,6 +188,8 @@ impl<S: Syntax, D> Drop for SyntaxNode<S, D> {
 impl<S: Syntax, D> SyntaxNode<S, D> {
     #[inline]
     fn data(&self) -> &NodeData<S, D> {
+        #[cfg(cstree_verif)]
+        crate::verif::note(crate::verif::Note::Access { ptr: self.data.as_ptr() as usize });
         unsafe { self.data.as_ref() }
     }
 
@@ -200,6 +214,12 @@ impl<S: Syntax, D> SyntaxNode<S, D> {
         for i in 0..data.children.len() {
             // safety: `child_locks` and `children` are pre-allocated to the same length
             let _write = unsafe { data.child_locks.get_unchecked(i).write() };
+            #[cfg(cstree_verif)]
+            let _scope = crate::verif::LockScope::new(
+                unsafe { data.child_locks.get_unchecked(i) } as *const _ as usize,
+                true,
+                crate::verif::LockKind::Slot,
+            );
             // safety: protected by the write lock
             let slot = unsafe { &mut *data.children.get_unchecked(i).get() };
             let mut child_data = None;
@@ -218,10 +238,25 @@ impl<S: Syntax, D> SyntaxNode<S, D> {
                 // safety: since there are no more `parent` pointers from the children of the
                 // node this data belonged to, and we have just dropped the node, there are now
                 // no more references to `data`
+                #[cfg(cstree_verif)]
+                crate::verif::note(crate::verif::Note::Free { ptr: data.as_ptr() as usize, count_cell: false });
                 let data = unsafe { Box::from_raw(data.as_ptr()) };
                 drop(data);
             }
         }
+    }
+}
+
+#[cfg(cstree_verif)]
+impl<S: Syntax, D> SyntaxNode<S, D> {
+    /// Current value of the tree's reference count.
+    pub fn verif_ref_count(&self) -> u32 {
+        unsafe { &*self.data().ref_count }.load(Ordering::Relaxed)
+    }
+
+    /// Address of this node's `NodeData`.
+    pub fn verif_addr(&self) -> usize {
+        self.data.as_ptr() as usize
     }
 }
 
@@ -281,6 +316,8 @@ impl<S: Syntax, D> NodeData<S, D> {
             children,
             child_locks,
         }));
+        #[cfg(cstree_verif)]
+        crate::verif::note(crate::verif::Note::Alloc { ptr: ptr as usize, count_cell: false });
         // safety: guaranteed by `Box::into_raw`
         unsafe { NonNull::new_unchecked(ptr) }
     }
@@ -310,6 +347,8 @@ impl<S: Syntax, D> SyntaxNode<S, D> {
 
     fn make_new_root(green: GreenNode, resolver: Option<StdArc<dyn Resolver<TokenKey>>>) -> Self {
         let ref_count = Box::new(AtomicU32::new(1));
+        #[cfg(cstree_verif)]
+        crate::verif::note(crate::verif::Note::Alloc { ptr: &*ref_count as *const AtomicU32 as usize, count_cell: true });
         let n_children = green.children().count();
         let data = NodeData::new(
             Kind::Root(green, resolver),
@@ -388,7 +427,11 @@ impl<S: Syntax, D> SyntaxNode<S, D> {
     /// Stores custom data for this node.
     /// If there was previous data associated with this node, it will be replaced.
     pub fn set_data(&self, data: D) -> Arc<D> {
+        #[cfg(cstree_verif)]
+        crate::verif::point(crate::verif::Point::Lock { addr: &self.data().data as *const _ as usize, write: true, what: crate::verif::LockKind::Data });
         let mut ptr = self.data().data.write();
+        #[cfg(cstree_verif)]
+        let _scope = crate::verif::LockScope::new(&self.data().data as *const _ as usize, true, crate::verif::LockKind::Data);
         let data = Arc::new(data);
         *ptr = Some(Arc::clone(&data));
         data
@@ -397,7 +440,11 @@ impl<S: Syntax, D> SyntaxNode<S, D> {
     /// Stores custom data for this node, but only if no data was previously set.
     /// If it was, the given data is returned unchanged.
     pub fn try_set_data(&self, data: D) -> Result<Arc<D>, D> {
+        #[cfg(cstree_verif)]
+        crate::verif::point(crate::verif::Point::Lock { addr: &self.data().data as *const _ as usize, write: true, what: crate::verif::LockKind::Data });
         let mut ptr = self.data().data.write();
+        #[cfg(cstree_verif)]
+        let _scope = crate::verif::LockScope::new(&self.data().data as *const _ as usize, true, crate::verif::LockKind::Data);
         if ptr.is_some() {
             return Err(data);
         }
@@ -409,20 +456,42 @@ impl<S: Syntax, D> SyntaxNode<S, D> {
     /// Returns the data associated with this node, if any.
     #[allow(clippy::useless_asref)] // make `Arc::clone` explicit
     pub fn get_data(&self) -> Option<Arc<D>> {
+        #[cfg(cstree_verif)]
+        crate::verif::point(crate::verif::Point::Lock { addr: &self.data().data as *const _ as usize, write: false, what: crate::verif::LockKind::Data });
         let ptr = self.data().data.read();
+        #[cfg(cstree_verif)]
+        let _scope = crate::verif::LockScope::new(&self.data().data as *const _ as usize, false, crate::verif::LockKind::Data);
         (*ptr).as_ref().map(Arc::clone)
     }
 
     /// Removes the data associated with this node.
     pub fn clear_data(&self) {
+        #[cfg(cstree_verif)]
+        crate::verif::point(crate::verif::Point::Lock { addr: &self.data().data as *const _ as usize, write: true, what: crate::verif::LockKind::Data });
         let mut ptr = self.data().data.write();
+        #[cfg(cstree_verif)]
+        let _scope = crate::verif::LockScope::new(&self.data().data as *const _ as usize, true, crate::verif::LockKind::Data);
         *ptr = None;
     }
 
     #[inline]
     fn read(&self, index: usize) -> Option<SyntaxElementRef<'_, S, D>> {
         // safety: children are pre-allocated and indices are determined internally
+        #[cfg(cstree_verif)]
+        crate::verif::point(crate::verif::Point::Lock {
+            addr:  unsafe { self.data().child_locks.get_unchecked(index) } as *const _ as usize,
+            write: false,
+            what:  crate::verif::LockKind::Slot,
+        });
         let _read = unsafe { self.data().child_locks.get_unchecked(index).read() };
+        #[cfg(cstree_verif)]
+        let _scope = crate::verif::LockScope::new(
+            unsafe { self.data().child_locks.get_unchecked(index) } as *const _ as usize,
+            false,
+            crate::verif::LockKind::Slot,
+        );
+        #[cfg(cstree_verif)]
+        crate::verif::note(crate::verif::Note::SlotAccess { node: self.data.as_ptr() as usize, index, write: false });
         // safety: mutable accesses to the slot only occur below and have to take the lock
         let slot = unsafe { &*self.data().children.get_unchecked(index).get() };
         slot.as_ref().map(|elem| elem.into())
@@ -430,13 +499,31 @@ impl<S: Syntax, D> SyntaxNode<S, D> {
 
     fn try_write(&self, index: usize, elem: SyntaxElement<S, D>) {
         // safety: children are pre-allocated and indices are determined internally
+        #[cfg(cstree_verif)]
+        crate::verif::point(crate::verif::Point::Lock {
+            addr:  unsafe { self.data().child_locks.get_unchecked(index) } as *const _ as usize,
+            write: true,
+            what:  crate::verif::LockKind::Slot,
+        });
         let _write = unsafe { self.data().child_locks.get_unchecked(index).write() };
+        #[cfg(cstree_verif)]
+        let _scope = crate::verif::LockScope::new(
+            unsafe { self.data().child_locks.get_unchecked(index) } as *const _ as usize,
+            true,
+            crate::verif::LockKind::Slot,
+        );
+        #[cfg(cstree_verif)]
+        crate::verif::note(crate::verif::Note::SlotAccess { node: self.data.as_ptr() as usize, index, write: true });
         // safety: we are the only writer and there are no readers as evidenced by the write lock
         let slot = unsafe { &mut *self.data().children.get_unchecked(index).get() };
         if slot.is_none() {
             // we are first to initialize the child
             *slot = Some(elem);
+            #[cfg(cstree_verif)]
+            crate::verif::note(crate::verif::Note::Installed { node: self.data.as_ptr() as usize, index });
         } else {
+            #[cfg(cstree_verif)]
+            crate::verif::note(crate::verif::Note::Lost { node: self.data.as_ptr() as usize, index });
             // another thread got the write lock first and already initialized it
             match elem {
                 SyntaxElement::Node(node) => {
@@ -450,9 +537,15 @@ impl<S: Syntax, D> SyntaxNode<S, D> {
 
                     // safety: `node` was just created and has not been shared
                     let ref_count = unsafe { &*node.data().ref_count };
+                    #[cfg(cstree_verif)]
+                    crate::verif::point(crate::verif::Point::Rmw { site: crate::verif::RmwSite::LoserNode });
                     ref_count.fetch_add(2, Ordering::AcqRel);
+                    #[cfg(cstree_verif)]
+                    crate::verif::note(crate::verif::Note::RmwDone { now: ref_count.load(Ordering::Relaxed) });
                     let node_data = node.data;
                     drop(node);
+                    #[cfg(cstree_verif)]
+                    crate::verif::note(crate::verif::Note::Free { ptr: node_data.as_ptr() as usize, count_cell: false });
                     unsafe { drop(Box::from_raw(node_data.as_ptr())) };
                 }
                 SyntaxElement::Token(token) => {
@@ -462,7 +555,11 @@ impl<S: Syntax, D> SyntaxNode<S, D> {
 
                     // safety: as above
                     let ref_count = unsafe { &*token.parent().data().ref_count };
+                    #[cfg(cstree_verif)]
+                    crate::verif::point(crate::verif::Point::Rmw { site: crate::verif::RmwSite::LoserToken });
                     ref_count.fetch_add(1, Ordering::AcqRel);
+                    #[cfg(cstree_verif)]
+                    crate::verif::note(crate::verif::Note::RmwDone { now: ref_count.load(Ordering::Relaxed) });
                     drop(token);
                 }
             }
@@ -477,9 +574,13 @@ impl<S: Syntax, D> SyntaxNode<S, D> {
         offset: TextSize,
     ) -> SyntaxElementRef<'_, S, D> {
         if let Some(elem) = self.read(index) {
+            #[cfg(cstree_verif)]
+            crate::verif::note(crate::verif::Note::SlotHit { node: self.data.as_ptr() as usize, index });
             debug_assert_eq!(elem.text_range().start(), offset);
             return elem;
         }
+        #[cfg(cstree_verif)]
+        crate::verif::note(crate::verif::Note::SlotMiss { node: self.data.as_ptr() as usize, index, is_node: true });
         self.try_write(
             index,
             Self::new_child(node, self, index as u32, offset, self.data().ref_count).into(),
@@ -495,9 +596,13 @@ impl<S: Syntax, D> SyntaxNode<S, D> {
         offset: TextSize,
     ) -> SyntaxElementRef<'_, S, D> {
         if let Some(elem) = self.read(index) {
+            #[cfg(cstree_verif)]
+            crate::verif::note(crate::verif::Note::SlotHit { node: self.data.as_ptr() as usize, index });
             debug_assert_eq!(elem.text_range().start(), offset);
             return elem;
         }
+        #[cfg(cstree_verif)]
+        crate::verif::note(crate::verif::Note::SlotMiss { node: self.data.as_ptr() as usize, index, is_node: element.as_node().is_some() });
         self.try_write(
             index,
             SyntaxElement::new(element, self, index as u32, offset, self.data().ref_count),
